@@ -56,6 +56,11 @@ func (o verOp) String() string {
 			return "set-versioning Enabled"
 		}
 		return "set-versioning Suspended"
+	case "setver-mfa":
+		if o.enable {
+			return "set-versioning Enabled+MfaDelete"
+		}
+		return "set-versioning Suspended+MfaDelete"
 	}
 	return o.kind
 }
@@ -103,6 +108,8 @@ func (s *verSys) Ops() []engine.Op {
 		}
 	}
 	ops = append(ops, verOp{kind: "setver", enable: true}, verOp{kind: "setver", enable: false})
+	// a configuration request the server refuses (MFA delete is not implemented) asking for the other status
+	ops = append(ops, verOp{kind: "setver-mfa", enable: s.m.Status != "Enabled"})
 	for _, k := range s.keys {
 		for i, e := range s.m.Keys[k] {
 			if e.ID != "" {
@@ -312,6 +319,28 @@ func (s *verSys) apply(op engine.Op) (string, *engine.Violation) {
 		}
 		if got != s.m.Status {
 			return respSig(r), s.verBad("setver", "reported-status", "-", "GET ?versioning reports %q, want %q", got, s.m.Status)
+		}
+		s.syncIDs()
+		return respSig(r), nil
+	case "setver-mfa":
+		st := "Suspended"
+		if o.enable {
+			st = "Enabled"
+		}
+		r := s.w.Do(drv.Req{Method: "PUT", Path: "/" + s.bucket, Query: "versioning", Body: []byte("<VersioningConfiguration><Status>" + st + "</Status><MfaDelete>Enabled</MfaDelete></VersioningConfiguration>")})
+		if r.Panic != "" {
+			return respSig(r), s.verBad("setver-mfa", "panic", "-", "%s", firstLine(r.Panic))
+		}
+		if r.Status == 200 {
+			s.m.SetVersioning(o.enable) // accepted: it applies like any other
+		}
+		gv := s.w.Do(drv.Req{Method: "GET", Path: "/" + s.bucket, Query: "versioning"})
+		got := ""
+		if n := gv.XML(); n != nil {
+			got = n.T("Status")
+		}
+		if got != s.m.Status {
+			return respSig(r), s.verBad("setver-mfa", "refused-request-took-effect", "-", "the request was answered %s, yet GET ?versioning reports %q (before: %q)", r.Short(), got, s.m.Status)
 		}
 		s.syncIDs()
 		return respSig(r), nil
